@@ -159,7 +159,7 @@ def _is_leaf(o):
     return n.endswith(('Bucket', 'Set')) and not n.endswith('TreeSet')
 
 
-def sweep(conn, rng, leaves_only=False):
+def sweep(conn, rng, leaves_only=False, forced_ok=True):
     """One cache sweep. -> number of nodes that became ghosts."""
     before = ghost_count(conn)
     r = rng.random()
@@ -174,7 +174,21 @@ def sweep(conn, rng, leaves_only=False):
         objs = conn.cached_objects()
         rng.shuffle(objs)
         for o in objs[:rng.randint(1, max(1, len(objs)))]:
-            o._p_deactivate()
+            # the spellings persistent offers an application for "let go
+            # of this object's state"; the last two are only equivalent to
+            # the first for a node without unsaved changes
+            # (_p_invalidate() and `del _p_changed` are the FORCED forms:
+            # they are documented to discard the state whatever the object
+            # is doing, so they are only used between operations)
+            how = rng.randrange(4 if forced_ok else 2)
+            if how == 0 or o._p_changed:
+                o._p_deactivate()
+            elif how == 1:
+                o._p_changed = None
+            elif how == 2:
+                o._p_invalidate()
+            else:
+                del o._p_changed
     return ghost_count(conn) - before
 
 
@@ -614,7 +628,7 @@ def run_history(fam, kind, impl, mode, rng, rec, h):
 
     def in_call_sweep():
         if rng.random() < 0.25:
-            k = sweep(conn, rng, leaves_only)
+            k = sweep(conn, rng, leaves_only, forced_ok=False)
             if k > 0:
                 state['ghosted'] += k
 
